@@ -362,7 +362,7 @@ func hasHugeIntBound(x *sg.Schema) bool {
 	if !isIntType(x) {
 		return false
 	}
-	huge := func(f float64) bool { return f >= 9223372036854775807 || f < -9223372036854775808 }
+	huge := func(f float64) bool { return f >= 9223372036854775807 || f <= -9223372036854775808 }
 	if x.Min != nil && huge(*x.Min) {
 		return true
 	}
